@@ -15,7 +15,7 @@ BASE_PROFILE = dict(
     block_depth=3,
     kinds=2,
     w_stmt=dict(
-        yield_=8, sync=1.0, raise_=0.5, try_=1.2, with_=1.0, read=0.0, ret=0.3, orphan=0.2, probe=0.0, syncitem=0.0
+        yield_=8, sync=1.0, raise_=0.5, try_=1.2, with_=1.0, read=0.0, ret=0.3, orphan=0.2, probe=0.0, syncitem=0.0, cancelbatch=0.0
     ),
     w_leaf=dict(
         call=6, item=4, const=1, none=0.6, err=0.3, lazy=0.3, again=0.5, junk=0.1, dbg=0.3
@@ -255,6 +255,8 @@ class Gen(object):
                     )
             elif op == "probe":
                 out.append(["probe", rnd.randrange(1000)])
+            elif op == "cancelbatch":
+                out.append(["cancelbatch", self.pick_kind()])
             elif op == "syncitem":
                 self.key += 1
                 k = self.pick_kind()
